@@ -128,6 +128,61 @@ def check_strings(chk, family, strings):
                         "in_language": strings[len(strings) // 2][1]})
 
 
+def _file_route(pair):
+    """compile a sentence from a file, overwrite the file with a corruption of the same length, compile again"""
+    good, bad, badinl = pair
+    import io, contextlib, tempfile
+    from .. import real
+    d = os.path.join(tlc.WORK, "c10-files")
+    os.makedirs(d, exist_ok=True)
+    fd, path = tempfile.mkstemp(suffix=".prolog", dir=d)
+    os.close(fd)
+    out = []
+    try:
+        for text in (good, bad):
+            with open(path, "w", encoding="utf-8") as f:
+                f.write(text)
+            try:
+                with contextlib.redirect_stderr(io.StringIO()):
+                    r = real.compiler.compile_prolog_from_file(path)
+                out.append(("returned", sorted(set(m.group(1) for m in _DEF.finditer(r)))))
+            except Exception as e:
+                out.append(("raised", type(e).__name__))
+    finally:
+        os.unlink(path)
+    return out
+
+
+def _file_chunk(chunk):
+    return [_file_route(x) for x in chunk]
+
+
+def check_file_route(chk, sentences, cor):
+    """sentences: [(toks, True, clauses, tag)], cor: corrupted strings with tags; pairs with equal rendered length"""
+    by_len = {}
+    for toks, inl, clauses, tag in cor:
+        if not inl:
+            by_len.setdefault(len(render(toks)), []).append(toks)
+    pairs = []
+    for toks, _, clauses, _ in sentences:
+        t = render(toks)
+        for b in by_len.get(len(t), [])[:2]:
+            pairs.append((t + "\n", render(b) + "\n", False))
+        if len(pairs) >= 400:
+            break
+    from .. import replay as _rp
+    chunks = [pairs[i:i + 25] for i in range(0, len(pairs), 25)]
+    outs = [x for o in _rp.pool_map(_file_chunk, chunks) for x in o] if chunks else []
+    for (good, bad, _), res in zip(pairs, outs):
+        chk.evaluations += 1
+        chk.replayed += 1
+        if len(res) == 2 and res[1][0] == "returned":
+            chk.violation({"kind": "accepted-outside-grammar", "detail": "compile_prolog_from_file accepted a file after it was overwritten with text outside the grammar",
+                           "family": "file-rewritten-in-place", "scenario": {"first": good, "then": bad, "results": res},
+                           "features": {"op": "compile_file", "family": "file-rewritten-in-place", "tag": "file"}})
+    chk.families.append({"family": "file-rewritten-in-place", "pairs": len(pairs)})
+
+
 def write_cfg(name, init, nxt, maxlen, shard, shards, invs):
     p = os.path.join(tlc.SPEC, name)
     with open(p, "w") as f:
@@ -219,6 +274,8 @@ def run(tier, seed):
     if len(kinds) < 7:
         chk.machinery_errors.append("vacuity: corruption kinds seen: %s" % sorted(kinds))
     check_strings(chk, "single-edit-corruptions", cor)
+    # the file entry point: the same path compiled twice, the second time holding a corruption of equal length
+    check_file_route(chk, [(b[0], True, b[2], "derived") for b in base] + [(l, True, [], "long") for l in longer], cor)
     chk.exhaustive = True
     chk.assumptions = ["spec/Syntax.tla is the transliteration of prolog.g4 (sha256 %s); tokens are rendered with one lexeme per kind and position, separated by blanks" %
                        __import__("hashlib").sha256(open(os.path.join(os.environ.get("YLDPROLOG_REPO", "/repo"), "src/yldprolog/prolog.g4"), "rb").read()).hexdigest()[:16],
